@@ -33,7 +33,7 @@ TRUSTED_BASE = [
     "modelled rather than verified: cgenerator.lua's stitching is mirrored by hand in coq/C15/Model.v (cstmt/cbody/ccases); the tie is the token-by-token comparison with the emitted C and the trace comparison, run on every check",
 ]
 ASSUMPTIONS = [
-    "C semantics of the emitted constructs as written in Model.v texec (block-scoped _repeat_stop/_expr/_ret temporaries abstracted into TUntil/TIn/TReturn; break inside switch leaves the switch; goto label leaves the loop)",
+    "C semantics of the emitted constructs as written in Model.v texec (block-scoped _repeat_stop/_expr/_ret/_mulret temporaries abstracted into TUntil/TIn/TReturn - for `_mulret` the field-by-field stores r1..rn are assumed to pair the i-th expression with the i-th returned value; break inside switch leaves the switch; goto label leaves the loop)",
     "function calls are inlined syntax (no recursion)",
     "which <close> initialisers get their type in a later resolution pass is an input of the model (flag `late`, printed as a polymorphic call); the repaired visit_close makes the order independent of it",
     "`continue` inside `repeat ... until c` is specified as: evaluate c at the continue statement, then leave the scopes (this is what the generator does; Lua has no continue)",
@@ -53,19 +53,20 @@ THEOREM_CLASSES = {
     "C15_ref_never_out_of_fuel": "corollary",
     "C15_tgt_never_out_of_fuel": "corollary",
     "C15_visit_close_any_order": "corollary",
-    "C15_in_goto_placement": "corollary",
+    "C15_in_goto_placement": "definitional",  # a syntactic fact about the model compiler, NOT a consequence of the main theorem
 }
 UNPROVED = [
     "`accepted` = what the analyzer accepts of the mini-language: not a theorem; tied by the accepted-vs-`nelua --analyze` stream (programs with exits placed anywhere) and 6 must-reject probes",
     "the `goto _doexprlabel` omission rule (needgoto): texec treats both forms of `in` alike, so the main theorem is semantically insensitive to it; what is proved is the syntactic half (C15_in_goto_placement: a goto-less `in` is always the last statement of its do-expression block, with the model's rule taken from the scraped visitors.In) - a change of the rule breaks that proof, the token comparison and the run-time traces",
+    "multi-value return: `TReturn es cl` is ONE target step (evaluate es left to right, run the clean-up cl, return the values); the theorem therefore covers the evaluation order of the returned expressions and that all of them are fixed before any clean-up runs, for any arity - but the per-field stores `_mulret.r1 = e1; ... _mulret.rn = en` of visitors.Return are abstracted into that step, so a wrong FIELD order or a wrong field/expression pairing in the emitted C is not expressible in the model; it is caught only by the token comparison (canonical `R e1 .. en`) and the run-time value comparison of the correspondence (tests)",
     "visit_close position bookkeeping: proved order-independent on a separate list model (C15_visit_close_any_order), linked to the code by a regex fact and the correspondence, not to `desugar_block`",
     "the reference semantics is the specification by construction; independent voice only for the Lua-expressible subset (<close>, no defer/continue/switch/do-expression) run by the bundled Lua 5.4",
     "`for ... in`, recursion, goto, polymorphic/generic function bodies, `require`d files: not generated; main-chunk programs compared by trace only",
     "deferred blocks containing an early `in` or a break inside a switch are not generated (duplicate C labels when emitted twice: C03 matter)",
 ]
 MANIFEST_ENTRY = {
-    "text": "proof, partial: Coq theorem for ALL programs of the mini-language (do/if/while/repeat/for/switch+fallthrough/function/do-expression, defers nested in defers, <close> declarations, every exit kind, any depth) that the analyzer's placement rules accept and ALL condition oracles: the generator's statically stitched clean-up produces exactly the trace and returned value of the reference semantics (each executed defer once, innermost first, after the returned value, `until` before the body's defers); corollaries LIFO / once / never, Fuel unreachable, visit_close order-independent. Multi-value returns (the _mulret temporary) are inside the theorem. Rest on differential testing only: that `accepted` is the analyzer's acceptance, the semantic effect of the goto-omission rule of `in` (its placement is a theorem), polymorphic/required code.",
-    "note": "trusted: Coq 8.16.1 kernel; the hand-written model of cgenerator.lua's stitching tied to /repo by token-by-token comparison with the emitted C, run-time traces, Lua 5.4 as a third voice on the <close> subset and regex facts in Gen.v (tripwire) - all testing; abstraction of C temporaries (_ret/_expr/_repeat_stop) into compound target statements; extraction (ExtrOcamlBasic), OCaml driver, Python generator/printer/tokenizer, gcc; no cross-property files",
+    "text": "proof, partial: Coq theorem for ALL programs of the mini-language (do/if/while/repeat/for/switch+fallthrough/function/do-expression, defers nested in defers, <close> declarations, every exit kind, any depth) that the analyzer's placement rules accept and ALL condition oracles: the generator's statically stitched clean-up produces exactly the trace and returned value of the reference semantics (each executed defer once, innermost first, after the returned value, `until` before the body's defers); corollaries LIFO / once / never, Fuel unreachable, visit_close order-independent. Returns of several values are in the theorem only as one abstract step (expressions evaluated left to right, all before the clean-up); the per-field stores into the `_mulret` temporary are not modelled. Rest on differential testing only: that `accepted` is the analyzer's acceptance, the field order / pairing of `_mulret`, the semantic effect of the goto-omission rule of `in` (the target semantics ignores the flag; only its syntactic placement is a separate theorem, not a consequence of the main one), polymorphic/required code.",
+    "note": "trusted: Coq 8.16.1 kernel; the hand-written model of cgenerator.lua's stitching tied to /repo by token-by-token comparison with the emitted C, run-time traces, Lua 5.4 as a third voice on the <close> subset and regex facts in Gen.v (tripwire) - all testing; abstraction of C temporaries (_ret/_mulret/_expr/_repeat_stop) into compound target statements; extraction (ExtrOcamlBasic), OCaml driver, Python generator/printer/tokenizer, gcc; no cross-property files",
     "technique": "machine-checked proof in Coq over an executable model + extracted-model/implementation correspondence",
 }
 
